@@ -36,7 +36,8 @@ RULE = ("stream (a), ~20%: random operation sequences on the real MatchList / Pa
 
 SYMPTOMS = [(1, "panic-or-bytes"), (2, "unsound"), (4, "order"), (8, "missed"), (16, "over-limit"), (32, "model")]
 
-# root-cause hints computed by the harness from the pattern's AST, most specific first
+# root-cause hints computed by the harness from the pattern's AST, most specific first (the defects behind
+# them are repaired: a case classified by one of them is a regression and is reported as a VIOLATION)
 TAG_ORDER = ["fullword-on-masked-literal", "class-to-masked-byte-unsound", "trailing-dot-repetition",
              "counted-repetition-of-group-with-wildcard", "jump-nonliteral-variable-jump", "base64wide"]
 
@@ -53,6 +54,14 @@ def classify(case):
     tags = case.get("tags") or []
     if any(int(s) + int(l) > n for s, l in rep):
         return "C01:scan:range-past-end-of-buffer:" + ("base64wide" if "base64wide" in tags else shape)
+    # the remaining known finding: a wide regexp split into a chain; some reported match is not a
+    # sequence of wide characters (odd length, or a byte at an odd offset that is not zero)
+    if "wide-regexp-split-at-large-gap" in tags and sym == "unsound":
+        data = bytes.fromhex(case.get("data_hex", ""))
+        def not_wide(s, l):
+            return l % 2 == 1 or any(b != 0 for b in data[s + 1:s + l:2])
+        if any(not_wide(int(s), int(l)) for s, l in rep):
+            return "C01:scan:wide-regexp-split-at-large-gap"
     for t in TAG_ORDER[:-1]:
         if t in tags:
             return f"C01:scan:{t}"
